@@ -235,7 +235,11 @@ def side_case(seed):
                 pool.pop(j)
             reals = sorted(np.real(ref))
             sep = min([b_ - a_ for a_, b_ in zip(reals, reals[1:]) if b_ - a_ > 1e-9 * scale] + [1.0])
-            if sep > 1e-5 * scale and np.any(np.diff(dists) < -1e-4 * scale):
+            # returned values are real parts: reference eigenvalues with (nearly) equal real parts but different distances to 1
+            # (exact degeneracies of integer data) cannot be told apart -- no ordering verdict then
+            ambiguous = any(abs(np.real(a_) - np.real(b_)) <= 1e-5 * scale and abs(abs(a_ - 1) - abs(b_ - 1)) > 1e-6 * scale
+                            for ia, a_ in enumerate(ref) for b_ in ref[ia + 1:])
+            if not ambiguous and sep > 1e-5 * scale and np.any(np.diff(dists) < -1e-4 * scale):
                 return 'pair %d: eigenvalues not ordered by |lambda - 1| of the complex eigenvalues: %s (distances %s)' % (i, ev, dists), desc
             if any(abs(e_) > 2e-3 * scale for e_ in rem):
                 return 'pair %d: returned eigenvalues %s beyond the non-zero EDMD spectrum' % (i, rem), desc
